@@ -462,6 +462,10 @@ def cases(ctx):
         P = g_poly(rng)                             # outer: Laurent
         # inner: monomial; Fraction coefficient (int ** -k would be a float)
         Q = ((rng.randint(-3, 3), Fraction(g_coef(rng, "E"))),)
+        if rng.random() < 0.15:                     # undefined composition
+          Q2 = g_poly(rng, lo=0, hi=3, maxterms=3)
+          if len(m_norm(Q2)) >= 2:
+            Q = Q2
       yield ("compose", P, Q)
     elif kind < 0.70:
       # Fraction coefficients only: integrate() divides, and int / int is a
@@ -671,9 +675,27 @@ def run_pow(ctx, mon, P, n):
 def run_compose(ctx, mon, P, Q):
   p, q = build(P), build(Q)
   a, b = m_norm(P), m_norm(Q)
+  if has_neg(P) and len(b) > 1:
+    # 1 / (several terms) is not a Laurent polynomial: the composition has
+    # no value, so it must not come back as some (wrong) Poly
+    ctx.count("compose:undefined-must-not-return-a-wrong-poly")
+    try:
+      r = p(q)
+    except (NotImplementedError, ZeroDivisionError, ValueError, TypeError):
+      return True
+    for v in (Fraction(2), Fraction(-3, 2), Fraction(5, 3)):
+      qv = sum(c * v ** k for k, c in b.items())
+      if qv == 0:
+        continue
+      want = sum(c * qv ** k for k, c in a.items())
+      got = r(v) if isinstance(r, Poly) else r
+      if num(got) is None or frac(got) != want:
+        mon.vio("compose/undefined-composition-returns-a-wrong-poly",
+                result=repr(r)[:300], at=str(v), got=repr(got),
+                want=str(want))
+        return True
+    return True
   if has_neg(P):
-    if len(b) != 1:
-      raise ValueError("generator produced an undefined composition")
     ctx.count("compose:laurent-outer-monomial-inner")
   else:
     ctx.count("compose:polynomial-outer")
@@ -826,12 +848,10 @@ def run_lagrange(ctx, mon, pairs):
       return
     raise
   if not isinstance(lp, Poly):
-    # a bare number is accepted as the constant interpolator of one point
-    ctx.count("lagrange:poly-returned-number")
-    if n != 1 or num(lp) is None:
-      mon.vio("lagrange-poly/result-not-a-Poly", got=repr(lp)[:300])
-      return
-    mon.value("lagrange-poly/misses-point", lp, frac(pairs[0][1]))
+    # (a bare number cannot be evaluated at its point: lagrange.poly of one
+    # point is the constant polynomial)
+    mon.vio("lagrange-poly/one-point-result-not-a-Poly" if n == 1 else
+            "lagrange-poly/result-not-a-Poly", got=repr(lp)[:300])
     return
   for x, y in pairs:
     ctx.count("lagrange_points")
@@ -904,6 +924,7 @@ def finish(ctx):
       ("eqhash:mixed-zero-types", 100), ("eqhash:different-routes", 100),
       ("eq_pairs_equal", 500), ("eq_pairs_unequal", 100),
       ("lagrange", 50), ("lagrange_points", 200),
+      ("compose:undefined-must-not-return-a-wrong-poly", 30),
       ("lagrange:n=1", 4), ("lagrange:n=2", 4), ("lagrange:n=3", 4),
       ("lagrange:n=4", 4), ("lagrange:n=5", 4), ("lagrange:n=6", 4),
       ("polys_observed", 10000), ("values_observed", 5000)]:
